@@ -7,9 +7,12 @@ def run(chk, tier, seed):
     # ledger / overlap monitor / quarantine build: leaks at release, double or invalid frees, overlapping copies, guard canaries
     cross.run_cross(chk, tier, seed, owned={"leak", "overlap", "badfree", "guard", "crash"}, flagsets=["", "t"] if tier == "thorough" else [""],
                     modes=["plain", "asan"])
+    # a call during which an allocation fails is a valid call too: the same tours with every allocation inside each call failing once,
+    # on the ledger build (a live block freed on an error path is then written to or read from quarantined memory, or freed twice)
+    cross.run_cross(chk, tier, seed + 3, owned={"leak", "overlap", "badfree", "guard", "crash"}, flagsets=["a"], modes=["plain"], do_random=False)
     chk.cov["rule"] = ("the tours (every model transition) and random histories of C01-C10 re-executed (a) on the ledger build: --wrap allocator ledger "
                        "with quarantine (freed blocks poisoned and never reused, a second free is seen), overlap monitor on memcpy/strcpy/strncpy, canaries "
-                       "around the static hash region; (b) on a clang ASan+UBSan+LSan build with exactly-sized heap buffers for all caller data. The trace "
+                       "around the static hash region, the tours once more with every allocation inside each call failing once; (b) on a clang ASan+UBSan+LSan build with exactly-sized heap buffers for all caller data. The trace "
                        "specifications admit no leak at release, no bad free, no overlapping copy and no crash event; a case is one validated event")
     chk.assumptions.append("under-runs before a block, stack/global overruns and the remaining undefined-behaviour classes are decided by the clang "
                            "sanitizer build, whose abort is relayed to TLC as a crash event (DESIGN.md section 7)")
